@@ -224,6 +224,13 @@ let classify_m1 (st : mstate) (toks : string list) (model : string) (impl : stri
       else if o = "save" && starts_with "fl(viol,op=save," impl && (has "kind=reopenerr," || has "kind=reopenmixture,") then Some "C05-split-commit"
       else if o = "lvfo" && (has "kind=mixture)" || has "kind=loaderr)") then Some "C05-split-rollback"
       else if o = "prune" && has "kind=retrydiffers)" then Some "C05-split-prune"
+      else if o = "import" && has "kind=reopenerr," then
+        (* position i of fl(viol,op=import_V,i=I/N,..): only after the first background batch *)
+        (try
+           let a = Str.search_forward (Str.regexp ",i=\\([0-9]+\\)/") impl 0 in
+           ignore a;
+           if int_of_string (Str.matched_group 1 impl) > 10000 then Some "C10-aborted-large-import" else None
+         with Not_found -> None)
       else None
   | [ "x"; "laudit" ] when starts_with "la(" impl
                           && (let has x = (try ignore (Str.search_forward (Str.regexp_string x) impl 0); true with Not_found -> false) in
@@ -482,6 +489,9 @@ let make_m1 (params : string list) : machine =
             let is_h = (List.hd toks = "hbound") in
             if t = "w" || List.exists (fun (w, _) -> int_of_z w = int_of_string (String.sub t 1 (String.length t - 1))) !st.forest
             then (if is_h then "hb(ok)" else "ct(ok)") else "err"
+        | [ "import"; v ] ->
+            (* fault import v: the live tree is not touched *)
+            if List.exists (fun (w, _) -> int_of_z w = int_of_string v) !st.forest then "ok" else "err"
         | [ "expimp"; v; codec; _ ] ->
             (* the node store the importer writes: the tree the proved importer model builds from
                the export stream (ExportImport.imp_run / cimp_run: keys with the nonces it assigns),
